@@ -507,4 +507,251 @@ theorem turnCoreR_reply_general (cfg : Cfg) (opts : Option Opts) (hd : sel opts 
   | blocked n => simp only [prepend_reply, blockedTailR_reply]
   | faulted n => simp only [replyOf]
 
+
+/-! ### the log `turn` writes vs. the rails it called -/
+
+theorem ioCalls_append (a b : List Step) : ioCalls (a ++ b) = ioCalls a ++ ioCalls b := by
+  induction a with
+  | nil => rfl
+  | cons s rest ih =>
+    cases s with
+    | railCall c i n x => simp only [List.cons_append, ioCalls]; split <;> simp [ih]
+    | llmCall => simpa [ioCalls] using ih
+    | utter t => simpa [ioCalls] using ih
+    | exception c n => simpa [ioCalls] using ih
+
+theorem ioCalls_retrieval : ∀ tr : List Step, (∀ s ∈ tr, ∃ j n x, s = Step.railCall .retrieval j n x) → ioCalls tr = []
+  | [], _ => rfl
+  | s :: rest, h => by
+    obtain ⟨j, n, x, rfl⟩ := h s (List.mem_cons_self ..)
+    simp only [ioCalls, catType]
+    exact ioCalls_retrieval rest (fun s' hs' => h s' (List.mem_cons_of_mem _ hs'))
+
+def Good (o : Out) : Prop := starts o.log = ioCalls o.trace ∧ openEnd false o.log = o.blocker.isSome
+def Neutral (tr : List Step) (lg : List LogEv) : Prop := starts lg = ioCalls tr ∧ openEnd false lg = false
+def BlockedSeg (tr : List Step) (lg : List LogEv) : Prop := starts lg = ioCalls tr ∧ ∀ b, openEnd b lg = true
+def TailOk (o : Out) : Prop := CleanLog o.log ∧ ioCalls o.trace = [] ∧ o.blocker.isSome = true
+
+theorem good_prepend_neutral {tr : List Step} {lg : List LogEv} {o : Out} (hn : Neutral tr lg) (ho : Good o) : Good (o.prepend tr lg) := by
+  constructor
+  · simp only [prepend_log, prepend_trace, starts_append, ioCalls_append, hn.1, ho.1]
+  · simp only [prepend_log, prepend_blocker, openEnd_append, hn.2, ho.2]
+
+theorem good_of_blocked_tail {tr : List Step} {lg : List LogEv} {o : Out} (hb : BlockedSeg tr lg) (ho : TailOk o) : Good (o.prepend tr lg) := by
+  constructor
+  · simp only [prepend_log, prepend_trace, starts_append, ioCalls_append, hb.1, clean_starts _ ho.1, ho.2.1]
+  · simp only [prepend_log, prepend_blocker, openEnd_append, hb.2, clean_openEnd _ ho.1, ho.2.2]
+
+theorem neutral_clean {tr : List Step} {lg : List LogEv} (hc : CleanLog lg) (ht : ioCalls tr = []) : Neutral tr lg :=
+  ⟨by rw [clean_starts _ hc, ht], clean_openEnd _ hc false⟩
+
+/-- the start/finish structure of a rail loop (input or output category, rails with marker-free bodies) -/
+theorem runRails_log (c : Cat) (ty : RailType) (hc : catType c = some ty) : ∀ (rs : List Rail) (i : Nat) (t : String),
+    (∀ r ∈ rs, r.clean) →
+    starts (runRails c i rs t).2.1 = ioCalls (runRails c i rs t).1 ∧
+      (match (runRails c i rs t).2.2 with
+        | .passed _ => openEnd false (runRails c i rs t).2.1 = false
+        | _ => ∀ b, openEnd b (runRails c i rs t).2.1 = true)
+  | [], _, _, _ => by simp [runRails, starts, ioCalls, openEnd]
+  | r :: rs, i, t, hcl => by
+    have hr : CleanLog r.noise := hcl r (List.mem_cons_self ..)
+    have hrest : ∀ r' ∈ rs, r'.clean := fun r' h' => hcl r' (List.mem_cons_of_mem _ h')
+    have hstart : starts (startEv c r.name) = [(ty, r.name)] ∧ (∀ b, openEnd b (startEv c r.name) = true) := by
+      cases c <;> simp_all [catType, startEv, starts, LogEv.startOf, openEnd]
+    have hfin : starts (finEv c) = [] ∧ (∀ b, openEnd b (finEv c) = false) := by
+      cases c <;> simp_all [catType, finEv, starts, LogEv.startOf, openEnd]
+    simp only [runRails]
+    cases hv : r.verdict t with
+    | accept =>
+      have ih := runRails_log c ty hc rs (i + 1) t hrest
+      simp only [starts_append, hstart.1, hfin.1, clean_starts _ hr, ioCalls, hc, ih.1, openEnd_append, hstart.2, hfin.2,
+        clean_openEnd _ hr, List.append_nil, List.cons_append, List.nil_append, true_and]
+      cases ho : (runRails c (i + 1) rs t).2.2 <;> rw [ho] at ih <;> simp only [] at ih ⊢
+      · exact ih.2
+      · intro _; exact ih.2 false
+      · intro _; exact ih.2 false
+    | rewrite t' =>
+      have ih := runRails_log c ty hc rs (i + 1) t' hrest
+      simp only [starts_append, hstart.1, hfin.1, clean_starts _ hr, ioCalls, hc, ih.1, openEnd_append, hstart.2, hfin.2,
+        clean_openEnd _ hr, List.append_nil, List.cons_append, List.nil_append, true_and]
+      cases ho : (runRails c (i + 1) rs t').2.2 <;> rw [ho] at ih <;> simp only [] at ih ⊢
+      · exact ih.2
+      · intro _; exact ih.2 false
+      · intro _; exact ih.2 false
+    | reject =>
+      simp only [starts_append, hstart.1, clean_starts _ hr, ioCalls, hc, openEnd_append, hstart.2, clean_openEnd _ hr,
+        List.append_nil, implies_true, and_self]
+    | fault =>
+      simp only [starts_append, hstart.1, clean_starts _ hr, ioCalls, hc, openEnd_append, hstart.2, clean_openEnd _ hr,
+        List.append_nil, implies_true, and_self]
+
+theorem runRetrieval_clean : ∀ (rs : List Rail) (i : Nat), (∀ r ∈ rs, r.clean) → CleanLog (runRetrieval i rs).2
+  | [], _, _ => rfl
+  | r :: rs, i, h => by
+    simp only [runRetrieval]
+    exact CleanLog.append (h r (List.mem_cons_self ..)) (runRetrieval_clean rs (i + 1) (fun r' h' => h r' (List.mem_cons_of_mem _ h')))
+
+/-- rails whose own log entries contain no rail start / finish marker -/
+def Cfg.clean (cfg : Cfg) : Prop := (∀ r ∈ cfg.input, r.clean) ∧ (∀ r ∈ cfg.output, r.clean) ∧ (∀ r ∈ cfg.retrieval, r.clean)
+
+theorem retrievalPartR_clean (cfg : Cfg) (hc : cfg.clean) (opts : Option Opts) :
+    CleanLog (retrievalPartR cfg opts).2 ∧ ioCalls (retrievalPartR cfg opts).1 = [] := by
+  unfold retrievalPartR
+  split
+  · exact ⟨runRetrieval_clean _ _ hc.2.2, ioCalls_retrieval _ (runRetrieval_trace _ _)⟩
+  · exact ⟨rfl, rfl⟩
+
+theorem botIntentSegR_clean (cfg : Cfg) (hc : cfg.clean) (opts : Option Opts) (p : Bool) :
+    CleanLog (botIntentSegR cfg opts p).2 ∧ ioCalls (botIntentSegR cfg opts p).1 = [] := by
+  obtain ⟨h1, h2⟩ := retrievalPartR_clean cfg hc opts
+  constructor
+  · simp only [botIntentSegR]
+    refine CleanLog.append (CleanLog.append (CleanLog.append (CleanLog.append rfl h1) rfl) ?_) rfl
+    cases p <;> rfl
+  · simp only [botIntentSegR, ioCalls_append, h2]
+    cases p <;> rfl
+
+theorem blockedTailR_tail (cfg : Cfg) (hc : cfg.clean) (opts : Option Opts) (c : Cat) (n : String) : TailOk (blockedTailR cfg opts c n) := by
+  unfold blockedTailR
+  split
+  · exact ⟨rfl, rfl, rfl⟩
+  · obtain ⟨h1, h2⟩ := botIntentSegR_clean cfg hc opts true
+    refine ⟨?_, ?_, rfl⟩
+    · show CleanLog ([LogEv.step n [.intent "refuse to respond"]] ++ (botIntentSegR cfg opts true).2)
+      exact CleanLog.append rfl h1
+    · simp only [ioCalls_append, h2]; rfl
+
+theorem good_utter (t : String) : Good { trace := [.utter t], log := [], reply := .text t, blocker := none } := ⟨rfl, rfl⟩
+
+theorem outputPhaseR_good (cfg : Cfg) (hc : cfg.clean) (opts : Option Opts) (bm : String) : Good (outputPhaseR cfg opts bm) := by
+  unfold outputPhaseR
+  have hl := runRails_log .output .output rfl cfg.output 0 bm hc.2.1
+  rcases hr : runRails .output 0 cfg.output bm with ⟨tr, lg, oc⟩
+  rw [hr] at hl
+  cases oc with
+  | passed t =>
+    have := @good_prepend_neutral tr lg _ ⟨hl.1, hl.2⟩ (good_utter t)
+    simpa [Out.prepend] using this
+  | blocked n => exact good_of_blocked_tail ⟨hl.1, hl.2⟩ (blockedTailR_tail cfg hc opts .output n)
+  | faulted n =>
+    have : TailOk { trace := [.utter cfg.internalError], log := [], reply := .text cfg.internalError, blocker := some (Cat.output, n) } := ⟨rfl, rfl, rfl⟩
+    have := @good_of_blocked_tail tr lg _ ⟨hl.1, hl.2⟩ this
+    simpa [Out.prepend] using this
+
+theorem processBotMessageR_good (cfg : Cfg) (hc : cfg.clean) (opts : Option Opts) (sk : Bool) (bm : String) :
+    Good (processBotMessageR cfg opts sk bm) := by
+  unfold processBotMessageR
+  split
+  · exact good_utter bm
+  · split
+    · exact outputPhaseR_good cfg hc opts bm
+    · exact good_utter bm
+
+theorem afterInputR_good (cfg : Cfg) (hc : cfg.clean) (opts : Option Opts) (um : String) (bot : Option String) (dlg : Dialog) :
+    Good (afterInputR cfg opts um bot dlg) := by
+  unfold afterInputR
+  split
+  · split
+    · exact good_utter um
+    · cases bot with
+      | none => exact ⟨rfl, rfl⟩
+      | some b => exact processBotMessageR_good cfg hc opts false b
+  · cases dlg with
+    | general text =>
+      exact good_prepend_neutral (neutral_clean rfl rfl) (processBotMessageR_good cfg hc opts false text)
+    | intent flow bi p text =>
+      obtain ⟨h1, h2⟩ := botIntentSegR_clean cfg hc opts p
+      refine good_prepend_neutral (neutral_clean ?_ ?_) (processBotMessageR_good cfg hc opts p text)
+      · exact CleanLog.append (CleanLog.append rfl rfl) h1
+      · simp only [ioCalls_append, h2]; rfl
+
+theorem turnCoreR_good (cfg : Cfg) (hc : cfg.clean) (opts : Option Opts) (user : String) (bot : Option String) (dlg : Dialog) :
+    Good (turnCoreR cfg opts user bot dlg) := by
+  unfold turnCoreR
+  have hl := runRails_log .input .input rfl cfg.input 0 user hc.1
+  split
+  all_goals rename_i tr1 lg1 x heq
+  all_goals
+    have hseg : starts lg1 = ioCalls tr1 ∧ (match (x : String), (tr1, lg1) with | _, _ => True) := ⟨by
+      split at heq
+      · rw [heq] at hl; exact hl.1
+      · cases heq <;> rfl, trivial⟩
+  · have hb : ∀ b, openEnd b lg1 = true := by
+      split at heq
+      · rw [heq] at hl; exact hl.2
+      · cases heq
+    exact good_of_blocked_tail ⟨hseg.1, hb⟩ (blockedTailR_tail cfg hc opts .input x)
+  · have hb : ∀ b, openEnd b lg1 = true := by
+      split at heq
+      · rw [heq] at hl; exact hl.2
+      · cases heq
+    have ht : TailOk { trace := [.utter cfg.internalError], log := [], reply := .text cfg.internalError, blocker := some (Cat.input, x) } := ⟨rfl, rfl, rfl⟩
+    have := @good_of_blocked_tail tr1 lg1 _ ⟨hseg.1, hb⟩ ht
+    simpa [Out.prepend] using this
+  · have hb : openEnd false lg1 = false := by
+      split at heq
+      · rw [heq] at hl; exact hl.2
+      · cases heq; rfl
+    exact good_prepend_neutral ⟨hseg.1, hb⟩ (afterInputR_good cfg hc opts x bot dlg)
+
+theorem mem_markLast (b : Bool) : ∀ (l : List (RailType × String)) (k : IOKey), k ∈ markLast b l → (k.type, k.name) ∈ l
+  | [], _, h => by simp [markLast] at h
+  | [(t, n)], k, h => by simp [markLast] at h; subst h; simp
+  | (t, n) :: k' :: l, k, h => by
+    rw [markLast_cons2] at h
+    simp only [List.mem_cons] at h
+    rcases h with rfl | h
+    · simp
+    · exact List.mem_cons_of_mem _ (mem_markLast b (k' :: l) k (by simpa using h))
+
+theorem mem_ioCalls : ∀ (tr : List Step) (t : RailType) (n : String), (t, n) ∈ ioCalls tr → ∃ c i x, Step.railCall c i n x ∈ tr
+  | [], _, _, h => by simp [ioCalls] at h
+  | s :: rest, t, n, h => by
+    cases s with
+    | railCall c i n' x =>
+      simp only [ioCalls] at h
+      split at h
+      · simp only [List.mem_cons, Prod.mk.injEq] at h
+        rcases h with ⟨_, rfl⟩ | h
+        · exact ⟨c, i, x, List.mem_cons_self ..⟩
+        · obtain ⟨c', i', x', hm⟩ := mem_ioCalls rest t n h
+          exact ⟨c', i', x', List.mem_cons_of_mem _ hm⟩
+      · obtain ⟨c', i', x', hm⟩ := mem_ioCalls rest t n h
+        exact ⟨c', i', x', List.mem_cons_of_mem _ hm⟩
+    | llmCall => obtain ⟨c', i', x', hm⟩ := mem_ioCalls rest t n (by simpa [ioCalls] using h); exact ⟨c', i', x', List.mem_cons_of_mem _ hm⟩
+    | utter u => obtain ⟨c', i', x', hm⟩ := mem_ioCalls rest t n (by simpa [ioCalls] using h); exact ⟨c', i', x', List.mem_cons_of_mem _ hm⟩
+    | exception c m => obtain ⟨c', i', x', hm⟩ := mem_ioCalls rest t n (by simpa [ioCalls] using h); exact ⟨c', i', x', List.mem_cons_of_mem _ hm⟩
+
+/-- `stopSpec` of the log of a whole turn, in terms of the trace -/
+theorem turn_stopSpec (cfg : Cfg) (hc : cfg.clean) (opts : Option Opts) (user : String) (bot : Option String) (dlg : Dialog) (out : Out)
+    (h : turn Gd cfg opts user bot dlg = some out) : stopSpec out.log = markLast out.blocker.isSome (ioCalls out.trace) := by
+  rw [turn_eq] at h; cases h
+  obtain ⟨h1, h2⟩ := turnCoreR_good cfg hc opts user bot dlg
+  rw [stopSpec_eq_markLast _ false (Or.inr rfl)]
+  have e1 : starts (LogEv.other :: ((turnCoreR cfg opts user bot dlg).log ++ [LogEv.other])) = starts (turnCoreR cfg opts user bot dlg).log := by
+    simp [starts, LogEv.startOf, starts_append]
+  have e2 : openEnd false (LogEv.other :: ((turnCoreR cfg opts user bot dlg).log ++ [LogEv.other])) = openEnd false (turnCoreR cfg opts user bot dlg).log := by
+    simp [openEnd, openEnd_append]
+  simp only [e1, e2, h1, h2]
+
+
+/-! ### a concrete configuration for the non-vacuity examples of Theorems/C16.lean -/
+
+def exBody (n : String) : List LogEv := [.step n [.act "check"], .actStart "check", .actFin "check"]
+
+/-- two input rails (the first rejects "bad" and otherwise appends "!"), one output rail (rejects "evil"), one retrieval rail -/
+def exCfg : Cfg :=
+  { input := [⟨"in0", fun t => if t == "bad" then .reject else .rewrite (t ++ "!"), exBody "in0"⟩, ⟨"in1", fun _ => .accept, exBody "in1"⟩],
+    output := [⟨"out0", fun t => if t == "evil" then .reject else .accept, exBody "out0"⟩],
+    retrieval := [⟨"ret0", fun _ => .accept, exBody "ret0"⟩], exceptions := false, refusal := "no", internalError := "ierr" }
+
+/-- no rail call of the trace carries the name `nm` -/
+def namesAvoid (nm : String) : List Step → Bool
+  | [] => true
+  | .railCall _ _ n _ :: rest => n != nm && namesAvoid nm rest
+  | _ :: rest => namesAvoid nm rest
+
+theorem exCfg_clean : exCfg.clean := by
+  simp [Cfg.clean, exCfg, Rail.clean, exBody, LogEv.isStartOrFin]
+
 end NemoVerif.PipelineOpts
